@@ -105,8 +105,11 @@ def run_group(ctx, edges, kind, ic, hier_kind, inputs, stream):
                     # a sequence that mixes the two accepted item kinds (either kind first)
                     mixed_a = [t if k % 2 == 0 else i for k, (t, i) in enumerate(zip(tids, idf))]
                     mixed_b = [i if k % 2 == 0 else t for k, (t, i) in enumerate(zip(tids, idf))]
+                    keep_a, keep_idf = list(mixed_a), list(idf)
                     res4 = tuple(int(i) for i in sorter.argsort(mixed_a))
                     res5 = tuple(int(i) for i in sorter.argsort(tuple(mixed_b)))
+                    idf_list = list(idf)
+                    res6 = tuple(int(i) for i in sorter.argsort(idf_list))          # Identified items in a LIST (mutable input)
                     if sorted(res) != list(range(n)):
                         problem = f'not a permutation of 0..{n - 1}: {res}'
                     elif n == 1 and res != (0,):
@@ -119,6 +122,11 @@ def run_group(ctx, edges, kind, ic, hier_kind, inputs, stream):
                         problem = f'Identified input gives {res3}, TermId input gives {res}'
                     elif res4 != res or res5 != res:
                         problem = f'mixed TermId/Identified input gives {res4} / {res5}, TermId input gives {res}'
+                    elif res6 != res:
+                        problem = f'a list of Identified items gives {res6}, TermId input gives {res}'
+                    elif len(mixed_a) != n or any(x is not y for x, y in zip(mixed_a, keep_a)) or \
+                            len(idf_list) != n or any(x is not y for x, y in zip(idf_list, keep_idf)):
+                        problem = 'the input sequence was modified: a list of (partly) Identified items no longer holds the caller\'s objects'
                 except Exception as e:  # noqa
                     problem = f'raises {type(e).__name__}: {e}'
                     trace = []
